@@ -1,4 +1,5 @@
 pub mod c07;
+pub mod c08;
 pub mod c09;
 pub mod c14;
 pub mod c19;
@@ -16,6 +17,7 @@ pub fn run(ctx: &Ctx) -> i32 {
     }
     match ctx.prop {
         "C07" => return c07::run(ctx),
+        "C08" => return c08::run(ctx),
         "C09" => return c09::run(ctx),
         "C14" => return c14::run(ctx),
         "C19" => return c19::run(ctx),
@@ -40,6 +42,10 @@ pub fn replay(_ctx: &Ctx, kind: &str, input: &Value) -> Result<Vec<Violation>, S
         "case-c14" => {
             let case: crate::scenario::Case = serde_json::from_value(input.clone()).map_err(|e| e.to_string())?;
             Ok(c14::replay(&case))
+        }
+        "c08-input" => {
+            let inp: c08::Input = serde_json::from_value(input.clone()).map_err(|e| e.to_string())?;
+            Ok(c08::replay(&inp))
         }
         "c19-cell" => {
             let cell: c19::Cell = serde_json::from_value(input.clone()).map_err(|e| e.to_string())?;
